@@ -23,6 +23,7 @@ class State:
         self.globals = {}  # per-run module globals that were assigned
         self.obligations = []  # side obligations collected on this path: (id, formula)
         self.events = []  # ordered effect log (strings / tuples)
+        self.facts = set()  # ids of pc entries that are assumed facts (axiom instances), not branch conditions
 
     @property
     def env(self):
@@ -37,6 +38,7 @@ class State:
         s.globals = dict(self.globals)
         s.obligations = list(self.obligations)
         s.events = list(self.events)
+        s.facts = set(self.facts)
         return s
 
     def alloc(self, content):
@@ -60,6 +62,7 @@ class State:
 
     def assume(self, f):
         self.pc.append(f)
+        self.facts.add(f.get_id())
 
 
 class Outcome:
